@@ -468,7 +468,22 @@ def narrowing_at(ctx, f, call, argname):
                 ce = ast.parse(fact[1], mode="eval").body
             except SyntaxError:
                 continue
-            if isinstance(ce, ast.Call) and isinstance(ce.func, ast.Attribute):
+            if isinstance(ce, ast.Name):
+                # a named condition: `go = x.is_a()` in one arm, `go = x.is_b()` in the other, then `if go:`
+                from .shared import reaching_def_nodes
+
+                ds = reaching_def_nodes(ctx, f, ctx.m.enclosing_stmt(call), ce.id)
+                union = set()
+                for d in ds:
+                    v = d.value if isinstance(d, ast.Assign) and len(d.targets) == 1 else None
+                    if isinstance(v, ast.Call) and isinstance(v.func, ast.Attribute) and isinstance(v.func.value, ast.Name) and v.func.value.id == argname and not v.args:
+                        union |= predicate_classes(ctx, v.func.attr)
+                    else:
+                        union = None
+                        break
+                if ds and union:
+                    cls = union
+            elif isinstance(ce, ast.Call) and isinstance(ce.func, ast.Attribute):
                 recv = ce.func.value
                 if isinstance(recv, ast.Name) and recv.id == argname and not ce.args:
                     cls = predicate_classes(ctx, ce.func.attr)
